@@ -99,6 +99,8 @@ fn gen(t: &mut Tape, _tier: Tier) -> Scenario {
         opts.memlimit = Some(t.range(0, 3000) as usize);
         sc.set_i("valid", 0);
     }
+    // the latches hold under every option: also when incomplete input is allowed
+    opts.allow_incomplete = t.below(3) == 0;
     // history that keeps going after failure / completion
     let mut ops = Vec::new();
     let nops = t.range(3, 40);
@@ -147,6 +149,9 @@ fn exec(sc: &Scenario, ctx: &mut Ctx) -> Vec<Violation> {
     ctx.stats.eval(sc.hash(), true, o.events.len() as u64);
     if let Some(p) = &o.panicked {
         return vec![Violation::new("panic", &panic_locus(p), p.clone(), sc)];
+    }
+    if opts.allow_incomplete {
+        ctx.stats.hit("arm.allow_incomplete");
     }
     if s.fired_hard > 0 {
         ctx.stats.hit("fault.fired.sink_write_fails_during_a_stream_write");
@@ -257,7 +262,9 @@ fn exec(sc: &Scenario, ctx: &mut Ctx) -> Vec<Violation> {
             return Vec::new();
         }
         if let Some(Verdict::Ok) = o.finish {
-            if s.first_bad.is_some() || s.accepted.len() != sc.b("expect").len() {
+            // allow_incomplete: finish leaves the look-ahead buffer undecoded (see below)
+            let short_ok = opts.allow_incomplete && s.accepted.len() < sc.b("expect").len();
+            if s.first_bad.is_some() || (s.accepted.len() != sc.b("expect").len() && !short_ok) {
                 return mk(
                     "output_changed_after_completion",
                     format!("final output has {} bytes (first bad {:?}), the stream defines {}", s.accepted.len(), s.first_bad, sc.b("expect").len()),
@@ -275,7 +282,10 @@ fn exec(sc: &Scenario, ctx: &mut Ctx) -> Vec<Violation> {
         // plain valid stream fed completely: must finish Ok with the exact output
         if o.fed == input.len() {
             if let Some(Verdict::Ok) = o.finish {
-                if s.first_bad.is_some() || s.accepted.len() != sc.b("expect").len() {
+                // with incomplete input allowed finish does not decode what sits in the
+                // look-ahead buffer: the tail may be missing (C15 bounds it), never wrong
+                let short_ok = opts.allow_incomplete && s.accepted.len() < sc.b("expect").len();
+                if s.first_bad.is_some() || (s.accepted.len() != sc.b("expect").len() && !short_ok) {
                     return mk("wrong_output", format!("{} bytes, expected {}", s.accepted.len(), sc.b("expect").len()));
                 }
             } else {
@@ -289,7 +299,7 @@ fn exec(sc: &Scenario, ctx: &mut Ctx) -> Vec<Violation> {
 pub static C16: SimpleProp = SimpleProp {
     id: "C16",
     level: "exploration",
-    rule: "one evaluation = one call history (3-50 calls of write with sizes 0..2000 / write_all-style pieces / flush / get_output, then finish) over a valid, corrupted (bit flip, truncation, splice, extension), over-long or size-lying input, an invalid header byte, or a multi-window stream whose sink fails while the window is handed over, continuing after the first Err and after the declared size is reached; latch rules are checked over the recorded (call, result, sink length) history; distinct by scenario hash; every case non-trivial (>= 3 calls)",
+    rule: "one evaluation = one call history (3-50 calls of write with sizes 0..2000 / write_all-style pieces / flush / get_output, then finish) (options: all three header modes, memory limit, allow_incomplete on a third of the runs) over a valid, corrupted (bit flip, truncation, splice, extension), over-long or size-lying input, an invalid header byte, or a multi-window stream whose sink fails while the window is handed over, continuing after the first Err and after the declared size is reached; latch rules are checked over the recorded (call, result, sink length) history; distinct by scenario hash; every case non-trivial (>= 3 calls)",
     runs_quick: 100_000,
     runs_thorough: 30_000_000,
     both_profiles: false,
